@@ -221,7 +221,7 @@ class ListTree:
                         after.update(range(pos, stop + 1))
                 reached = after
             elif ignore_case:
-                literal = re.compile(re.escape(part), re.IGNORECASE)
+                literal = re.compile(re.escape(part), re.IGNORECASE | re.ASCII)
                 reached = {pos + len(part) for pos in reached
                            if literal.match(name, pos)}
             else:
